@@ -9,13 +9,15 @@ Inductive input :=
 | ITable (file : bytes) (cnt : N) (addrs : list bytes)
 | IJournal (data : bytes)
 | IManifest (data : bytes)
-| IResolve (file : bytes) (cnt : N) (shorts : list bytes).
+| IResolve (file : bytes) (cnt : N) (shorts : list bytes)
+| IArchive (file : bytes) (addrs : list bytes)
+| IStore (opened : N).     (* a real database directory with one corrupted file: oracle only; [opened] echoes o_open *)
 
 (* codes
    o_open  : 0 ok | 1 err | 2 panic / worker crash
    has     : 0 absent | 1 present | 2 panic | 3 err
    get     : 0 absent | 1 ok, content hashes to the address | 2 ok, content does NOT hash to the address
-             | 3 err | 4 panic | 5 err from snappy after the checksum passed
+             | 3 err | 4 panic | 5 err from snappy after the checksum passed | 6 (model only) no prediction
    o_iter  : 0 ok | 1 delivered a chunk that does not hash to its address | 2 err | 3 panic | 4 not run / any
    o_gm    : 0 ok | 1 delivered a wrong chunk | 2 err | 3 crash | 4 not run / any
    o_class : 0 ok | 1 err | 2 panic | 3 data loss error        (journal scan, manifest parse)
@@ -24,13 +26,15 @@ Inductive input :=
 Record obs := {
   o_open : N; o_res : list (N * N); o_iter : N; o_itern : N; o_gm : N;
   o_class : N; o_recs : list (N * N * bytes * N); o_off : N;
-  o_man : option (N * bytes * bytes * bytes * bytes * list (bytes * N))
+  o_man : option (N * bytes * bytes * bytes * bytes * list (bytes * N));
+  o_extra : list N   (* oracle-only operations the model makes no prediction for (hasMany, extract, tolerant
+                        iteration, every store-level call): 0 ok | 1 wrong content | 2 err | 3 panic *)
 }.
 
 Definition case := (input * obs)%type.
 
 Definition empty_obs : obs :=
-  {| o_open := 0; o_res := []; o_iter := 4; o_itern := 0; o_gm := 4; o_class := 0; o_recs := []; o_off := 0; o_man := None |}.
+  {| o_open := 0; o_res := []; o_iter := 4; o_itern := 0; o_gm := 4; o_class := 0; o_recs := []; o_off := 0; o_man := None; o_extra := [] |}.
 
 Definition has_code (r : res bool) : N :=
   match r with Ok false => 0 | Ok true => 1 | Panic => 2 | Err => 3 end.
@@ -39,8 +43,8 @@ Definition get_code (r : res (option bytes)) : N :=
 
 Definition table_obs (file : bytes) (cnt : N) (addrs : list bytes) : obs :=
   match open_table file cnt with
-  | Err => {| o_open := 1; o_res := []; o_iter := 4; o_itern := 0; o_gm := 4; o_class := 0; o_recs := []; o_off := 0; o_man := None |}
-  | Panic => {| o_open := 2; o_res := []; o_iter := 4; o_itern := 0; o_gm := 4; o_class := 0; o_recs := []; o_off := 0; o_man := None |}
+  | Err => {| o_open := 1; o_res := []; o_iter := 4; o_itern := 0; o_gm := 4; o_class := 0; o_recs := []; o_off := 0; o_man := None; o_extra := [] |}
+  | Panic => {| o_open := 2; o_res := []; o_iter := 4; o_itern := 0; o_gm := 4; o_class := 0; o_recs := []; o_off := 0; o_man := None; o_extra := [] |}
   | Ok t =>
     let it := match iterate crc32c file t with
               | Ok l => (0, N.of_nat (length l)) | Err => (2, 0) | Panic => (3, 0) end in
@@ -48,40 +52,56 @@ Definition table_obs (file : bytes) (cnt : N) (addrs : list bytes) : obs :=
        o_res := map (fun h => (has_code (has t h), get_code (get crc32c file t h))) addrs;
        o_iter := fst it; o_itern := snd it;
        o_gm := match get_many t addrs with GMCrash => 3 | GMNoCrash => 0 end;
-       o_class := 0; o_recs := []; o_off := 0; o_man := None |}
+       o_class := 0; o_recs := []; o_off := 0; o_man := None; o_extra := [] |}
   end.
 
 Definition journal_obs (data : bytes) : obs :=
   match scan_journal crc32c data with
-  | Panic => {| o_open := 0; o_res := []; o_iter := 4; o_itern := 0; o_gm := 4; o_class := 2; o_recs := []; o_off := 0; o_man := None |}
-  | Err => {| o_open := 0; o_res := []; o_iter := 4; o_itern := 0; o_gm := 4; o_class := 1; o_recs := []; o_off := 0; o_man := None |}
+  | Panic => {| o_open := 0; o_res := []; o_iter := 4; o_itern := 0; o_gm := 4; o_class := 2; o_recs := []; o_off := 0; o_man := None; o_extra := [] |}
+  | Err => {| o_open := 0; o_res := []; o_iter := 4; o_itern := 0; o_gm := 4; o_class := 1; o_recs := []; o_off := 0; o_man := None; o_extra := [] |}
   | Ok (recs, off, cl) =>
     {| o_open := 0; o_res := []; o_iter := 4; o_itern := 0; o_gm := 4;
        o_class := match cl with JOk => 0 | JErr => 1 | JDataLoss => 3 end;
        o_recs := map (fun e => (fst e, j_kind (snd e), j_addr (snd e),
                                 match j_payload (snd e) with Some p => blen p | None => 0 end)) recs;
-       o_off := off; o_man := None |}
+       o_off := off; o_man := None; o_extra := [] |}
   end.
 
 Definition manifest_obs (data : bytes) : obs :=
   match parse_manifest data with
-  | Panic => {| o_open := 0; o_res := []; o_iter := 4; o_itern := 0; o_gm := 4; o_class := 2; o_recs := []; o_off := 0; o_man := None |}
-  | Err => {| o_open := 0; o_res := []; o_iter := 4; o_itern := 0; o_gm := 4; o_class := 1; o_recs := []; o_off := 0; o_man := None |}
+  | Panic => {| o_open := 0; o_res := []; o_iter := 4; o_itern := 0; o_gm := 4; o_class := 2; o_recs := []; o_off := 0; o_man := None; o_extra := [] |}
+  | Err => {| o_open := 0; o_res := []; o_iter := 4; o_itern := 0; o_gm := 4; o_class := 1; o_recs := []; o_off := 0; o_man := None; o_extra := [] |}
   | Ok m => {| o_open := 0; o_res := []; o_iter := 4; o_itern := 0; o_gm := 4; o_class := 0; o_recs := []; o_off := 0;
-               o_man := Some (m_vers m, m_nbf m, m_lock m, m_root m, m_gcgen m, m_specs m) |}
+               o_man := Some (m_vers m, m_nbf m, m_lock m, m_root m, m_gcgen m, m_specs m); o_extra := [] |}
   end.
 
 Definition resolve_obs (file : bytes) (cnt : N) (shorts : list bytes) : obs :=
   match open_table file cnt with
-  | Err => {| o_open := 1; o_res := []; o_iter := 4; o_itern := 0; o_gm := 4; o_class := 0; o_recs := []; o_off := 0; o_man := None |}
-  | Panic => {| o_open := 2; o_res := []; o_iter := 4; o_itern := 0; o_gm := 4; o_class := 0; o_recs := []; o_off := 0; o_man := None |}
+  | Err => {| o_open := 1; o_res := []; o_iter := 4; o_itern := 0; o_gm := 4; o_class := 0; o_recs := []; o_off := 0; o_man := None; o_extra := [] |}
+  | Panic => {| o_open := 2; o_res := []; o_iter := 4; o_itern := 0; o_gm := 4; o_class := 0; o_recs := []; o_off := 0; o_man := None; o_extra := [] |}
   | Ok t =>
     {| o_open := 0; o_res := []; o_iter := 4; o_itern := 0; o_gm := 4; o_class := 0;
        o_recs := map (fun s => match resolve t s with
                                | Ok hs => (0, 0, concat hs, N.of_nat (length hs))
                                | Err => (0, 1, [], 0)
                                | Panic => (0, 2, [], 0) end) shorts;
-       o_off := 0; o_man := None |}
+       o_off := 0; o_man := None; o_extra := [] |}
+  end.
+
+Definition gres_code (g : gres) : N :=
+  match g with GAbsent => 0 | GOk _ => 1 | GErr => 3 | GPanic => 4 | GAny => 6 end.
+
+Definition archive_obs (file : bytes) (addrs : list bytes) : obs :=
+  match open_archive file with
+  | Err => {| o_open := 1; o_res := []; o_iter := 4; o_itern := 0; o_gm := 4; o_class := 0; o_recs := []; o_off := 0; o_man := None; o_extra := [] |}
+  | Panic => {| o_open := 2; o_res := []; o_iter := 4; o_itern := 0; o_gm := 4; o_class := 0; o_recs := []; o_off := 0; o_man := None; o_extra := [] |}
+  | Ok a =>
+    let it := match aiterate crc32c file a with
+              | IOk l => (0, N.of_nat (length l)) | IErr => (2, 0) | IPanic => (3, 0) | IAny => (4, 0) end in
+    {| o_open := 0;
+       o_res := map (fun h => (has_code (ahas a h), gres_code (aget crc32c file a h))) addrs;
+       o_iter := fst it; o_itern := snd it; o_gm := 4;
+       o_class := 0; o_recs := []; o_off := 0; o_man := None; o_extra := [] |}
   end.
 
 Definition model_obs (i : input) : obs :=
@@ -90,11 +110,14 @@ Definition model_obs (i : input) : obs :=
   | IJournal d => journal_obs d
   | IManifest d => manifest_obs d
   | IResolve f c ss => resolve_obs f c ss
+  | IArchive f a => archive_obs f a
+  | IStore op => {| o_open := op; o_res := []; o_iter := 4; o_itern := 0; o_gm := 4; o_class := 0; o_recs := []; o_off := 0; o_man := None; o_extra := [] |}
   end.
 
 (* comparison: [m] is the model's observation, [o] the implementation's *)
 Definition get_eqb (m o : N) : bool :=
-  if m =? 1 then (o =? 1) || (o =? 2) || (o =? 5) else if m =? 3 then (o =? 3) else m =? o.
+  if m =? 6 then true
+  else if m =? 1 then (o =? 1) || (o =? 2) || (o =? 5) else if m =? 3 then (o =? 3) || (o =? 5) else m =? o.
 Fixpoint res_eqb (m o : list (N * N)) : bool :=
   match m, o with
   | [], [] => true
@@ -145,6 +168,7 @@ Definition oracle (i : input) (o : obs) : bool :=
   && negb (o_iter o =? 1) && negb (o_iter o =? 3)
   && negb (o_gm o =? 1) && negb (o_gm o =? 3)
   && negb (o_class o =? 2)
+  && forallb (fun c => negb (c =? 1) && negb (c =? 3)) (o_extra o)
   && match i with
      | IResolve _ _ _ => forallb (fun r => negb (snd (fst (fst r)) =? 2)) (o_recs o)
      | _ => true
@@ -152,7 +176,11 @@ Definition oracle (i : input) (o : obs) : bool :=
 
 (* caller-side precondition of ResolveShortHash (not file content): at most 32 base32 characters *)
 Definition input_wf (i : input) : bool :=
-  match i with IResolve _ _ ss => forallb valid_short ss | _ => true end.
+  match i with
+  | IResolve _ _ ss => forallb valid_short ss
+  | IArchive _ _ => false      (* the archive reader does panic on corrupt bytes: see no_panic_archive_refuted *)
+  | _ => true
+  end.
 
 Definition check_case (c : case) : N :=
   (if obs_eqb (model_obs (fst c)) (snd c) then 0 else 1)
